@@ -28,11 +28,14 @@ type ConcSummary struct {
 	Canary         bool     `json:"canary_ran"`
 	GOMAXPROCS     int      `json:"gomaxprocs"`
 	BaselinePanics int      `json:"baseline_escaped_panics"`
+	Unstable       int      `json:"results_changed_by_a_later_call"`
+	UnstableSample []string `json:"unstable_sample,omitempty"`
+	ReaderCases    int      `json:"cases_through_parsereader"`
 }
 
 func digestResult(r *Result) string {
 	h := sha256.New()
-	fmt.Fprintf(h, "%s|%v|%s|%d|%s|%s|%s|%d\n", r.Val, r.ErrNil, r.ErrStr, r.End, r.Panic, r.FinalState, r.GLog, len(r.Trace))
+	fmt.Fprintf(h, "%s|%v|%s|%d|%s|%s|%s|%d|%s\n", r.Val, r.ErrNil, r.ErrStr, r.End, r.Panic, r.FinalState, r.GLog, len(r.Trace), r.Unstable)
 	for _, e := range r.Trace {
 		h.Write([]byte(e))
 		h.Write([]byte{'\n'})
@@ -102,6 +105,15 @@ func MainConcurrent(casesFile, outFile string, goroutines, iters int, canary boo
 		r := f(&cc)
 		if r.Panic != "" {
 			sum.BaselinePanics++
+		}
+		if c.Reader {
+			sum.ReaderCases++
+		}
+		if r.Unstable != "" {
+			sum.Unstable++
+			if len(sum.UnstableSample) < 3 {
+				sum.UnstableSample = append(sum.UnstableSample, fmt.Sprintf("case %s pkg %s input %q: %s", c.ID, c.Pkg, c.Input, r.Unstable))
+			}
 		}
 		base[i] = digestResult(r)
 		pairs[fmt.Sprintf("%s|%t%t%t%t|%s", c.Pkg, c.Memo, c.Stats, c.AllowInvalid, c.NoRecover, c.Entry)] = true
